@@ -38,7 +38,9 @@ def run(tier, seed):
         models=[('MC_OvImpl', 'MC_OvImpl_A.cfg', 'MC_OvImpl_A.cfg',
                  'implementation-shaped model of ov_theory over the model of the sat core constructors: ExactlyOne, EqualityMeaning, ValueSound, NeverEmpty, OConservative over every history of <= 2 variables (overlapping / nested / disjoint / singleton domains, derived variables), one equality request and one pruning', None),
                 ('MC_OvImpl', 'MC_OvImpl_B.cfg', 'MC_OvImpl_B.cfg',
-                 'the same model: domains of three values, two prunings (down to a single value) before / after the equality request', None)],
+                 'the same model: domains of three values, two prunings (down to a single value) before / after the equality request', None),
+                ('MC_OvImpl', None, 'MC_OvImpl_C.cfg',
+                 'the same model: three variables (two overlapping domains and a singleton, derived variables), two equality requests - chains a = b, b = c, an equality asked again in the other order (cache), a singleton in the middle - and one pruning: 466k states', None)],
         ovimpl=(['OvGen_A.cfg', 'OvGen_B.cfg'], ['OvGen_A.cfg', 'OvGen_B.cfg']),
         assumptions=['at most 11 propositional variables per execution (model enumeration)'],
         post=planner_variables)
